@@ -52,7 +52,23 @@ def r1(ctx, chk):
             for c in ast.walk(n.value):
                 if isinstance(c, ast.Call) and isinstance(c.func, ast.Attribute) and c.func.attr == "group" and c.args and isinstance(c.args[0], ast.Constant):
                     grp[n.targets[0].id] = c.args[0].value
+    # the same bindings through one unpacking: a, b, c = match.groups()  /  (int(x or 0) for x in match.groups())
+    if len(grp) < 3:
+        for n in iter_own_nodes(f.node):
+            if isinstance(n, ast.Assign) and isinstance(n.targets[0], ast.Tuple) and all(isinstance(e_, ast.Name) for e_ in n.targets[0].elts) \
+                    and any(isinstance(c, ast.Call) and isinstance(c.func, ast.Attribute) and c.func.attr == "groups" for c in ast.walk(n.value)):
+                names = [e_.id for e_ in n.targets[0].elts]
+                # each must become an int: directly in the unpacked expression or by a later int(name ..) rebinding
+                ints = any(isinstance(c, ast.Call) and ast.unparse(c.func) == "int" for c in ast.walk(n.value))
+                for i_, nm in enumerate(names):
+                    later = any(isinstance(m_, ast.Assign) and isinstance(m_.targets[0], ast.Name) and isinstance(m_.value, ast.Call)
+                                and ast.unparse(m_.value.func) == "int" and any(isinstance(x, ast.Name) and x.id == nm for x in ast.walk(m_.value))
+                                for m_ in iter_own_nodes(f.node))
+                    if ints or later:
+                        grp[nm] = i_ + 1
     chk.floor(rule, len(grp), 3, "names bound to int(match.group(k))")
+    if len(grp) < 3:
+        return          # nothing to reason about: reported as ANALYSIS-ERROR by the floor
     ft = [n for n in iter_own_nodes(f.node) if isinstance(n, ast.Call) and ast.unparse(n.func).endswith("fromtimestamp")]
     ok = len(ft) == 1 and ft[0].args and isinstance(ft[0].args[0], ast.Name) and grp.get(ft[0].args[0].id) == 1
     chk.ob(rule, "fromtimestamp receives group 1 (the 10-digit seconds) and nothing else", ok, "",
@@ -92,6 +108,16 @@ def r1(ctx, chk):
             o = ast.unparse(else_[0].value) if isinstance(else_[0], ast.Assign) else ""
             ok = b.startswith("RE_SEARCH_NEGATIVE_TIMESTAMP.search(") and o.startswith("RE_SEARCH_TIMESTAMP.search(") \
                 and ast.unparse(then_[0].targets[0]) == ast.unparse(else_[0].targets[0])
+    # the same choice written as a conditional expression: R = NEG if negative else POS; match = R.search(..)
+    for n in iter_own_nodes(f.node):
+        if isinstance(n, ast.IfExp):
+            t_, a_, b_ = n.test, n.body, n.orelse
+            while isinstance(t_, ast.UnaryOp) and isinstance(t_.op, ast.Not):
+                t_, a_, b_ = t_.operand, b_, a_
+            if isinstance(t_, ast.Name) and t_.id == "negative":
+                a_t, b_t = ast.unparse(a_), ast.unparse(b_)
+                if a_t.startswith("RE_SEARCH_NEGATIVE_TIMESTAMP") and b_t.startswith("RE_SEARCH_TIMESTAMP") and (a_t.endswith(")") == b_t.endswith(")")):
+                    ok = True
     chk.ob(rule, "the negative regex is used only when negative=True", ok, "", key={"construct": "regex choice"}, file=f.file,
            function=f.qual, line=f.node.lineno)
     D = ix.cls("dateparser.date:_DateLocaleParser")
